@@ -98,6 +98,13 @@ def run(tier):
             for opt in ("a", "b"):
                 for st in sorted(set([p_, 100] + ([1, 2, 3, 4, 5, 6, 7, 8, 9] if tier == "thorough" else r.sample([1, 2, 3, 4, 5, 6, 7, 8, 9], 2)))):
                     sreqs.append({"iupac": txt, "kw": {"root_orientation": opt, "start": st}}); smeta.append((txt, opt, "opt", st))
+    # objects whose SMILES is assembled lazily (tree_only=True; full=False with an undetermined part)
+    for root in (ends[:8] if tier == "quick" else ends):
+        poss = T.RES[root][1] if root in T.RES else extra_pos[root]
+        txt = f"Gal(b1-{poss[0]}){root}"
+        for opt in ("a", "b"):
+            sreqs.append({"iupac": txt, "kw": {"root_orientation": opt, "tree_only": True}}); smeta.append((txt, opt, "opt", 100.5))
+            sreqs.append({"iupac": txt, "kw": {"root_orientation": opt, "tree_only": True, "full": False}}); smeta.append((txt, opt, "opt", 100.25))
     souts = C.run_impl_parallel("convert_many", sreqs)
     stab = {m: o["smiles"] for m, o in zip(smeta, souts)}
     swept = 0
